@@ -406,6 +406,33 @@ func (g *apiGen) indexNames(db, coll string) []string {
 	return names
 }
 
+// retargetToIndexed points the call at a namespace that has a secondary index (if there is one).
+func (g *apiGen) retargetToIndexed(c *apiCall) bool {
+	cat := g.env.engine.Catalog()
+	var hs []lungo.Handle
+	for _, h := range sortedHandles(cat) {
+		if h != lungo.Oplog && len(cat.Namespaces[h].Indexes) > 1 {
+			hs = append(hs, h)
+		}
+	}
+	if len(hs) == 0 {
+		return false
+	}
+	h := hs[g.r.N(len(hs))]
+	c.DB, c.Coll = h[0], h[1]
+	return true
+}
+
+func (g *apiGen) secondaryIndexNames(db, coll string) []string {
+	var out []string
+	for _, n := range g.indexNames(db, coll) {
+		if n != "_id_" {
+			out = append(out, n)
+		}
+	}
+	return out
+}
+
 func (g *apiGen) indexKeys() bson.D {
 	r := g.r
 	dir := func() interface{} {
@@ -715,17 +742,35 @@ func (g *apiGen) next0() *apiCall {
 	// ---- index management (10 %)
 	case k < 870:
 		g.createIndex(c)
+	case k < 900 && r.P(70) && g.retargetToIndexed(c):
+		// (re-targeted to a namespace that has a secondary index)
+		db, coll = c.DB, c.Coll
+		if k < 887 {
+			c.M = "dropIndex"
+			sec := g.secondaryIndexNames(db, coll)
+			c.Name = sec[r.N(len(sec))]
+		} else {
+			c.M = "dropIndexByKey"
+			sec := g.secondaryIndexNames(db, coll)
+			c.Keys = *g.env.engine.Catalog().Namespaces[lungo.Handle{db, coll}].Indexes[sec[r.N(len(sec))]].Config().Key
+		}
 	case k < 885:
 		c.M = "dropIndex"
 		names := append([]string{"_id_", "nope", "a_1"}, g.indexNames(db, coll)...)
 		c.Name = names[r.N(len(names))]
+		if sec := g.secondaryIndexNames(db, coll); len(sec) > 0 && r.P(65) {
+			c.Name = sec[r.N(len(sec))]
+		}
 	case k < 890:
 		c.M = "dropAllIndexes"
 	case k < 900:
 		c.M = "dropIndexByKey"
 		c.Keys = g.indexKeys()
-		if ns := g.env.engine.Catalog().Namespaces[lungo.Handle{db, coll}]; ns != nil && r.P(60) {
+		if ns := g.env.engine.Catalog().Namespaces[lungo.Handle{db, coll}]; ns != nil && r.P(70) {
 			names := g.indexNames(db, coll)
+			if sec := g.secondaryIndexNames(db, coll); len(sec) > 0 && r.P(85) {
+				names = sec
+			}
 			c.Keys = *ns.Indexes[names[r.N(len(names))]].Config().Key
 		}
 	// ---- drops (5 %)
